@@ -11,10 +11,12 @@ from . import thr, tok
 
 BOUNDS = {"quick": [dict(K=3, obs=1, pre=2, to=1), dict(K=2, obs=2, pre=1, to=1, log=True), dict(K=4, obs=1, pre=1, to=1, log=True),
                     dict(K=3, obs=1, pre=1, to=1, log=True, printer=True), dict(K=3, obs=1, pre=2, to=1, onstart=True, flags=(True, False)),
-                    dict(K=4, obs=1, pre=1, to=1, flags=(False, True))],
+                    dict(K=4, obs=1, pre=1, to=1, flags=(False, True)),
+                    dict(K=3, obs=1, pre=1, to=1, spw=2), dict(K=3, obs=1, pre=1, to=1, nojoin=True)],
           "thorough": [dict(K=6, obs=1, pre=2, to=2), dict(K=3, obs=2, pre=2, to=1, log=True), dict(K=5, obs=1, pre=3, to=1), dict(K=2, obs=3, pre=1, to=0), dict(K=3, obs=3, pre=0, to=1),
                        dict(K=7, obs=1, pre=1, to=1, log=True), dict(K=3, obs=1, pre=2, to=1, log=True, printer=True),
-                       dict(K=4, obs=1, pre=2, to=1, onstart=True, flags=(True, False)), dict(K=5, obs=1, pre=1, to=1, flags=(False, True))]}
+                       dict(K=4, obs=1, pre=2, to=1, onstart=True, flags=(True, False)), dict(K=5, obs=1, pre=1, to=1, flags=(False, True)),
+                       dict(K=4, obs=1, pre=2, to=1, spw=2), dict(K=3, obs=2, pre=1, to=1, spw=2), dict(K=4, obs=1, pre=2, to=1, nojoin=True), dict(K=2, obs=2, pre=1, to=1, nojoin=True)]}
 
 
 class RecLogger:
@@ -31,23 +33,46 @@ def sig(regs):
     return [(round(r.meta.start * thr.SR), round(r.meta.end * thr.SR), bytes(r.data)) for r in regs]
 
 
-def harness(L, K, nobs, max_pre, max_to, log=False, printer=False, onstart=False, flags=(False, False)):
+def audio_and_kw(K, flags, spw):
+    """spw=2: two-sample windows and an odd number of samples, i.e. the last window is a partial one"""
+    data = thr.tagged_audio(K, spw)
+    if spw > 1:
+        data = data[:-thr.BPS]
+    skw = dict(thr.SPLIT_KW, drop_trailing_silence=flags[0], strict_min_dur=flags[1], max_dur=0.2 if any(flags) else thr.SPLIT_KW["max_dur"], min_dur=0.2 if any(flags) else thr.SPLIT_KW["min_dur"])
+    if spw > 1:
+        skw = dict(skw, min_dur=skw["min_dur"] * spw, max_dur=skw["max_dur"] * spw, max_silence=skw["max_silence"] * spw)
+    return data, skw
+
+
+def run_main(s, tw, allobs, obs, nojoin):
+    """what the main thread does after building the workers"""
+    tw.start_all()
+    killed = []
+    if nojoin:
+        killed = s.interpreter_exit()
+    else:
+        tw.join()
+        for o in allobs:
+            o.join()
+    return ("done", [[(i, sig([r])[0]) for i, r in o.got] for o in obs], [(d.id, d.start, d.end, d.duration) for d in tw.detections],
+            all(t.finished for t in s.threads), killed)
+
+
+def harness(L, K, nobs, max_pre, max_to, log=False, printer=False, onstart=False, flags=(False, False), spw=1, nojoin=False):
     W, core, util = L.modules["workers"], L.modules["core"], L.modules["util"]
     Obs = thr.make_observer_class(W)
-    data = thr.tagged_audio(K)
-
-    skw = dict(thr.SPLIT_KW, drop_trailing_silence=flags[0], strict_min_dur=flags[1], max_dur=0.2 if any(flags) else thr.SPLIT_KW["max_dur"], min_dur=0.2 if any(flags) else thr.SPLIT_KW["min_dur"])
+    data, skw = audio_and_kw(K, flags, spw)
 
     def path(e):
         s = S.Sched(e, max_timeouts=max_to, max_preempt=max_pre)
         s.yield_on_start = onstart
-        val = thr.window_validator(data)
-        meta = dict(K=K, obs=nobs, pre=max_pre, to=max_to, log=log, printer=printer, onstart=onstart, flags=list(flags))
+        val = thr.window_validator(data, spw)
+        meta = dict(K=K, obs=nobs, pre=max_pre, to=max_to, log=log, printer=printer, onstart=onstart, flags=list(flags), spw=spw, nojoin=nojoin)
         e.on_budget = lambda m: mk(m, meta, s)
         outcome = None
         obs = []
         try:
-            reader = util.AudioReader(data, block_dur=0.1, sr=thr.SR, sw=thr.SW, ch=thr.CH)
+            reader = util.AudioReader(data, block_dur=0.1 * spw, sr=thr.SR, sw=thr.SW, ch=thr.CH)
             obs = [Obs() for _ in range(nobs)]
             printed = []
             allobs = list(obs)
@@ -56,17 +81,12 @@ def harness(L, K, nobs, max_pre, max_to, log=False, printer=False, onstart=False
                 allobs.append(W.PrintWorker("{id} {start} {end}", "%S"))
             tw = W.TokenizerWorker(reader, allobs, logger=RecLogger() if log else None, validator=val, **skw)
             s.private.add(id(tw._inbox))
-            tw.start_all()
-            tw.join()
-            for o in allobs:
-                o.join()
-            outcome = ("done", [[(i, sig([r])[0]) for i, r in o.got] for o in obs], [(d.id, d.start, d.end, d.duration) for d in tw.detections],
-                       all(t.finished for t in s.threads))
+            outcome = run_main(s, tw, allobs, obs, nojoin)
         except (S.Outcome, S.ThreadCrashed) as ex:
             outcome = ("failed", str(ex))
         finally:
             s.cleanup()
-        want = sig(list(core.split(data, sr=thr.SR, sw=thr.SW, ch=thr.CH, analysis_window=0.1, validator=thr.window_validator(data), **skw)))
+        want = sig(list(core.split(data, sr=thr.SR, sw=thr.SW, ch=thr.CH, analysis_window=0.1 * spw, validator=thr.window_validator(data, spw), **skw)))
         fails = judge(outcome, want)
         if printer and not fails:
             exp = ["%d %.3f %.3f" % (i, a / thr.SR, b / thr.SR) for i, (a, b, _) in enumerate(want, 1)]
@@ -87,9 +107,11 @@ def harness(L, K, nobs, max_pre, max_to, log=False, printer=False, onstart=False
 def judge(outcome, want):
     if outcome[0] != "done":
         return [outcome[1]]
-    _, got, dets, finished = outcome
+    _, got, dets, finished, killed = outcome
     fails = []
-    if not finished:
+    if killed:
+        fails.append("the program ends while %s still have work to do (daemon threads die with the main thread)" % killed)
+    elif not finished:
         fails.append("some worker thread did not terminate")
     ids = [d[0] for d in dets]
     if ids != list(range(1, len(ids) + 1)):
@@ -118,16 +140,16 @@ def replay_fn(c):
     W, core, util = L["workers"], L["core"], L["util"]
     Obs = thr.make_observer_class(W)
     K = c["K"]
-    data = thr.tagged_audio(K)
-    val = thr.concrete_validator(data, c["valid"])
+    fl = c.get("flags") or [False, False]
+    spw = c.get("spw", 1)
+    data, skw = audio_and_kw(K, fl, spw)
+    val = thr.concrete_validator(data, c["valid"], spw)
     s = S.Sched(None, max_timeouts=c["to"] + 50, max_preempt=10 ** 6)
     s.yield_on_start = bool(c.get("onstart"))
     s.script = [tuple(x) for x in c["schedule"]]
     outcome = None
-    fl = c.get("flags") or [False, False]
-    skw = dict(thr.SPLIT_KW, drop_trailing_silence=fl[0], strict_min_dur=fl[1], max_dur=0.2 if any(fl) else thr.SPLIT_KW["max_dur"], min_dur=0.2 if any(fl) else thr.SPLIT_KW["min_dur"])
     try:
-        reader = util.AudioReader(data, block_dur=0.1, sr=thr.SR, sw=thr.SW, ch=thr.CH)
+        reader = util.AudioReader(data, block_dur=0.1 * spw, sr=thr.SR, sw=thr.SW, ch=thr.CH)
         obs = [Obs() for _ in range(c["obs"])]
         printed = []
         allobs = list(obs)
@@ -136,17 +158,12 @@ def replay_fn(c):
             allobs.append(W.PrintWorker("{id} {start} {end}", "%S"))
         tw = W.TokenizerWorker(reader, allobs, logger=RecLogger() if c.get("log") else None, validator=val, **skw)
         s.private.add(id(tw._inbox))
-        tw.start_all()
-        tw.join()
-        for o in allobs:
-            o.join()
-        outcome = ("done", [[(i, sig([r])[0]) for i, r in o.got] for o in obs], [(d.id, d.start, d.end, d.duration) for d in tw.detections],
-                   all(t.finished for t in s.threads))
+        outcome = run_main(s, tw, allobs, obs, bool(c.get("nojoin")))
     except (S.Outcome, S.ThreadCrashed) as ex:
         outcome = ("failed", str(ex))
     finally:
         s.cleanup()
-    want = sig(list(core.split(data, sr=thr.SR, sw=thr.SW, ch=thr.CH, analysis_window=0.1, validator=thr.concrete_validator(data, c["valid"]), **skw)))
+    want = sig(list(core.split(data, sr=thr.SR, sw=thr.SW, ch=thr.CH, analysis_window=0.1 * spw, validator=thr.concrete_validator(data, c["valid"], spw), **skw)))
     fails = judge(outcome, want)
     if c.get("printer") and not fails:
         exp = ["%d %.3f %.3f" % (i, a / thr.SR, b / thr.SR) for i, (a, b, _) in enumerate(want, 1)]
@@ -154,7 +171,7 @@ def replay_fn(c):
             fails = ["PrintWorker printed %s, expected %s" % (printed, exp)]
     if not fails:
         return []
-    kind = "deadlock or non-termination" if outcome[0] != "done" else ("thread left running" if "terminate" in fails[0] else "observer misses, repeats or reorders detections")
+    kind = "deadlock or non-termination" if outcome[0] != "done" else ("thread left running" if "terminate" in fails[0] else "workers do not finish their work by themselves" if "program ends" in fails[0] else "observer misses, repeats or reorders detections")
     return [("C12: " + kind, "windows %s, %d observer(s), schedule %s: %s" % (tok.stream_str(c["valid"]), c["obs"], compact(c["schedule"]), fails[0]))]
 
 
@@ -181,11 +198,13 @@ def run(rep):
                        "finished; no deadlock.")
     rep.assumptions = ["threads interleave only at queue operations and joins (GIL switch points inside a queue operation are not modelled)",
                        "time-outs fire only on an empty queue, at most `to` times per worker", "datetime.now() left real"]
+    rep.assumptions.append("'main thread returns without joining': the interpreter waits for the non-daemon threads, then daemon threads die where they are")
     rep.outside = ["more windows / observers / pre-emptions than stated", "real-time effects"]
     for cf in cfgs:
-        hn = "sched[K=%d,obs=%d,pre=%d,to=%d%s%s%s%s]" % (cf["K"], cf["obs"], cf["pre"], cf["to"], ",logger" if cf.get("log") else "", ",PrintWorker" if cf.get("printer") else "",
-                                                        ",start-is-a-scheduling-point" if cf.get("onstart") else "", ",flags=%s" % (cf["flags"],) if cf.get("flags") else "")
+        hn = "sched[K=%d,obs=%d,pre=%d,to=%d%s%s%s%s%s%s]" % (cf["K"], cf["obs"], cf["pre"], cf["to"], ",logger" if cf.get("log") else "", ",PrintWorker" if cf.get("printer") else "",
+                                                            ",start-is-a-scheduling-point" if cf.get("onstart") else "", ",flags=%s" % (cf["flags"],) if cf.get("flags") else "",
+                                                            ",2-sample windows with a partial last one" if cf.get("spw", 1) > 1 else "", ",main thread returns without joining" if cf.get("nojoin") else "")
         ex = explore(harness(L, cf["K"], cf["obs"], cf["pre"], cf["to"], cf.get("log", False), cf.get("printer", False), cf.get("onstart", False),
-                             tuple(cf.get("flags", (False, False)))), max_decisions=3000, path_wall_s=30)
+                             tuple(cf.get("flags", (False, False))), cf.get("spw", 1), cf.get("nojoin", False)), max_decisions=3000, path_wall_s=30)
         rep.add_exploration(hn, ex, bounds=cf)
         tok.handle_cex(rep, hn, ex, replay_fn)
